@@ -9,7 +9,9 @@ import time
 
 VERIF = os.path.dirname(os.path.dirname(os.path.abspath(__file__)))
 SPEC = os.path.join(VERIF, "spec")
-OUT = os.path.join(VERIF, "out")
+# VERIF_SCRATCH: side runs (other seeds, scratch worktrees) keep their output and evidence away from the committed ones
+SCRATCH = os.environ.get("VERIF_SCRATCH")
+OUT = os.path.join(SCRATCH or VERIF, "out")
 JAR = "/opt/veriftools/tla/tla2tools.jar"
 DEPS = "/opt/veriftools/tla/CommunityModules-deps.jar"
 
